@@ -19,7 +19,7 @@ function build(ft, v) {
         case "f32": case "f64": return v.f === "inf" ? Infinity : v.f === "-inf" ? -Infinity : Number(v.f);
         case "en": return En[EN_NAMES[v]];
         case "ptr": return v === null ? null : new Op(rt.internalConstructor, v, []);
-        case "slice": return v;
+        case "slice": return (v !== null && typeof v === "object" && v.ps) ? v.v.map((x) => (v.ps === "i64" || v.ps === "u64") ? BigInt(x.big) : (v.ps === "f32" || v.ps === "f64") ? Number(x.f) : x) : v;
         case "struct": { const o = {}; ft.inner.forEach((f, i) => { o[f.name] = build(f.ft, v[i]); }); return o; }
         case "option": return v === null ? null : build(ft.inner, v);
         default: return v;
@@ -32,7 +32,7 @@ function canon(ft, x) {
         case "f32": case "f64": return { f: x === Infinity ? "inf" : x === -Infinity ? "-inf" : String(x) };
         case "en": return { en: x.ffiValue };
         case "ptr": return { ptr: x.ffiValue };
-        case "slice": return typeof x === "string" ? x : Array.from(x);
+        case "slice": return typeof x === "string" ? x : Array.from(x).map((e) => typeof e === "bigint" ? { big: e.toString() } : (typeof e === "number" && !Number.isInteger(e)) ? { f: String(e) } : e);
         case "struct": return ft.inner.map((f) => canon(f.ft, x[f.name]));
         case "option": return canon(ft.inner, x);
         default: return x;
@@ -61,10 +61,12 @@ for (const s of job.structs) {
             const obj = {}; s.fields.forEach((f, i) => { obj[f.name] = build(f.ft, c.vals[i]); });
             const inst = S.fromFields(obj);
             const arena = new rt.CleanupArena();
+            st.allocs.length = 0;
             inst._writeToArrayBuffer(wasm.memory.buffer, P, arena, amap);
             out.written = hex(P, s.size);
             out.slices = c.slices.map((sl) => { const dv = new DataView(wasm.memory.buffer); const ptr = dv.getUint32(P + sl.off, true), len = dv.getUint32(P + sl.off + 4, true);
-                return { off: sl.off, ptr, len, content: (len * sl.elem) < 4096 && ptr + len * sl.elem < wasm.memory.buffer.byteLength ? hex(ptr, len * sl.elem) : "?" }; });
+                const al = st.allocs.find((a) => a.ptr === ptr);
+                return { off: sl.off, ptr, len, alloc: al ? { size: al.size, align: al.align } : null, content: (len * sl.elem) < 4096 && ptr + len * sl.elem < wasm.memory.buffer.byteLength ? hex(ptr, len * sl.elem) : "?" }; });
         } catch (e) { out.write_error = String(e).slice(0, 200); }
         // ---- read path
         try {
@@ -89,7 +91,7 @@ for (const s of job.structs) {
             else {
                 out.args = call.args.map(canonArg);
                 // candidate pointer args: dump memory behind them (spec ABI passes a pointer to the struct; slices pass ptr,len)
-                out.mem = call.args.map((a) => (typeof a === "number" && Number.isInteger(a) && a >= 0x10000 && a + 64 < wasm.memory.buffer.byteLength) ? hex(a, Math.max(s.size, 16)) : null);
+                out.mem = call.args.map((a) => (typeof a === "number" && Number.isInteger(a) && a >= 0x10000 && a + 64 < wasm.memory.buffer.byteLength) ? hex(a, Math.max(s.size, 64)) : null);
             }
         } catch (e) { out.take_error = String(e).slice(0, 200); }
         res.cases.push(out);
@@ -137,5 +139,44 @@ for (const s of job.structs) {
         }
     }
     results.push(res);
+}
+// ---- runtime probe: DiplomatBuf.slice / strs for every view kind, the allocation placed so that it ends 64 bytes before the end
+// of the wasm memory (a list that fits must be accepted wherever the allocator puts it)
+{
+    const KINDS = [["u8", 1, (i) => i & 0xff], ["i8", 1, (i) => (i & 0x7f) - 64], ["boolean", 1, (i) => (i & 1) === 1], ["u16", 2, (i) => i], ["i16", 2, (i) => -i],
+        ["u32", 4, (i) => i * 65537], ["i32", 4, (i) => -i * 65537], ["u64", 8, (i) => BigInt(i) << 33n], ["i64", 8, (i) => -(BigInt(i) << 33n)],
+        ["f32", 4, (i) => i + 0.5], ["f64", 8, (i) => i + 0.25]];
+    const probe = [];
+    const n = 1000;
+    for (const [ty, size, mk] of KINDS) {
+        const rec = { ty, n, elem: size };
+        const save = st.next;
+        try {
+            const list = Array.from({ length: n }, (_, i) => mk(i));
+            st.allocs.length = 0;
+            st.next = (wasm.memory.buffer.byteLength - n * size - 64) & ~7;
+            const b = rt.DiplomatBuf.slice(wasm, list, ty);
+            rec.ptr = b.ptr; rec.len = b.size; rec.alloc = st.allocs.length ? { size: st.allocs[0].size, align: st.allocs[0].align, ptr: st.allocs[0].ptr } : null;
+            rec.last = hex(b.ptr + (n - 1) * size, size);
+            new Uint32Array(wasm.memory.buffer, 0x8000, 2).set([b.ptr, n]);
+            const back = new rt.DiplomatSlicePrimitive(wasm, 0x8000, ty, []).getValue();
+            rec.back_len = back.length; rec.back_last = String(ty === "boolean" ? Boolean(back[n - 1]) : back[n - 1]); rec.want_last = String(mk(n - 1));
+        } catch (e) { rec.error = String(e).slice(0, 200); }
+        st.next = save;
+        probe.push(rec);
+    }
+    for (const enc of ["string8", "string16"]) {
+        const rec = { ty: "strs:" + enc, n: 100, elem: 8 };
+        const save = st.next;
+        try {
+            st.allocs.length = 0;
+            st.next = (wasm.memory.buffer.byteLength - 100 * 8 - 64 - 400) & ~7;
+            const b = rt.DiplomatBuf.strs(wasm, Array.from({ length: 100 }, (_, i) => "s" + (i % 10)), enc);
+            rec.ptr = b.ptr; rec.len = b.size; rec.alloc = { size: st.allocs[0].size, align: st.allocs[0].align, ptr: st.allocs[0].ptr };
+        } catch (e) { rec.error = String(e).slice(0, 200); }
+        st.next = save;
+        probe.push(rec);
+    }
+    results.push({ name: "$runtime_probe", probe });
 }
 process.stdout.write(JSON.stringify(results));
